@@ -39,23 +39,304 @@ ASSUMPTIONS = ['values: Python == coincides with structural equality (generators
                'image level (NiftiWrapper.from_sequence) is a separate part added by the integrator']
 
 
-def sig_n11(case, obs):
-    """Signature of the open finding N11: the slice_dim ARGUMENT differs from some input's own slice_dim (the
-    argument is honoured for the result only).  Never produced by the random streams (sdim_arg is None or the
-    inputs' slice_dim); covered by corpus/C03/N11_*.json."""
-    sd = case.get('sdim_arg')
-    if sd is not None and any(E['sdim'] != sd for E in case['exts']):
+# ------------------------------------------------------------------------------------------ generator truth
+
+def expected_header(case):
+    """What the merged header must be, from the CASE alone (documented parameters of from_sequence): the affine /
+    slice_dim arguments when given, else the first input's."""
+    E0 = case['exts'][0]
+    aff = case['aff'] if case.get('aff') is not None else E0['aff']
+    sd = case['sdim_arg'] if case.get('sdim_arg') is not None else E0['sdim']
+    return aff, sd
+
+
+def expected_shape(case):
+    sh = list(case['exts'][0]['shape'])
+    while len(sh) <= case['dim']:
+        sh.append(1)
+    sh[case['dim']] = len(case['exts'])
+    return sh
+
+
+def _normal(aff, sd, conv):
+    """Slice normal under the library's current convention (affine ROW sd) or under the slice DIRECTION (column sd).
+    The property does not fix the convention (open finding N13 is about exactly this), so the value clause accepts a
+    result that is the concatenation under either one."""
+    from fractions import Fraction
+    if sd is None:
+        return None
+    if conv == 'row':
+        return [Fraction(x) for x in aff[sd][:3]]
+    return [Fraction(aff[i][sd]) for i in range(3)]
+
+
+def _drops(case, conv):
+    aff, sd = expected_header(case)
+    rn = _normal(aff, sd, conv)
+    out = []
+    for E in case['exts']:
+        en = _normal(E['aff'], E['sdim'], conv)
+        out.append(not (rn is not None and en is not None and extlib.allclose(rn, en)))
+    return out
+
+
+def _value_failures(case, R, conv):
+    """Value clause of C03 against the dense reference; R carries the EXPECTED shape / slice dim."""
+    exts, dim = case['exts'], case['dim']
+    drops = _drops(case, conv)
+    ax = extlib.merge_axis_kind(dim, R['sdim'])
+    dR = extlib.dims(R)
+    out = []
+    for k in extlib.keys_of(R, *exts):
+        if ax is None:
+            tabs = [[extlib.den(E, k, p, dr) for p in extlib.grid(extlib.dims(E))] for E, dr in zip(exts, drops)]
+            agree = all(t == tabs[0] for t in tabs)
+            got = [extlib.den(R, k, p) for p in extlib.grid(dR)]
+            if agree and got != tabs[0]:
+                out.append((k, 'key %r: all inputs agree but the result differs' % k))
+            elif not agree and any(x is not None for x in got):
+                out.append((k, 'key %r: inputs disagree but the key was kept' % k))
+        else:
+            for p in extlib.grid(dR):
+                q = list(p)
+                i = q[ax]
+                q[ax] = 0
+                a, b = extlib.den(R, k, p), extlib.den(exts[i], k, tuple(q), drops[i])
+                if a != b:
+                    out.append((k, 'key %r: result%r = %r but input %d at %r = %r' % (k, p, a, i, tuple(q), b)))
+                    break
+    return out
+
+
+def merge_clauses(case, obs):
+    """EVERY clause of C03 (extension level) evaluated on one observation -> list of (clause, key | None, message).
+    Expected values come from the case (generator truth), never from the result's own header."""
+    exts, dim = case['exts'], case['dim']
+    sh = exts[0]['shape']
+    if 'crash' in obs:
+        return [('crash', None, 'unexpected %s in the runner: %s' % (obs.get('crash'), obs.get('msg')))]
+    singular = dim < 5 and (dim >= len(sh) or sh[dim] == 1)
+    if not singular:
+        # outside the property's quantifier; the documented behaviour is a refusal (any exception class)
+        return [] if 'err' in obs else [('refusal', None, 'non-singular merge axis / dim >= 5: expected a refusal, got a result')]
+    if 'err' in obs:
+        return [('raised', None, 'from_sequence(dim=%d) raised %s: %s' % (dim, obs.get('exc'), obs.get('msg')))]
+    out = []
+    R0 = obs['ext']
+    exp_aff, exp_sd = expected_header(case)
+    exp_shape = expected_shape(case)
+    if R0['shape'] != exp_shape:
+        return [('shape', None, 'result shape %r, expected %r' % (R0['shape'], exp_shape))]
+    R = dict(R0, shape=exp_shape, sdim=exp_sd)
+    # own length / class clause (check_valid is not trusted for this; den() would ignore surplus values)
+    dR = extlib.dims(R)
+    for k, c, vs in R['entries']:
+        if not extlib.class_ok(exp_shape, c):
+            out.append(('length', k, 'key %r sits in %s which the result shape does not admit' % (k, c)))
+        elif len(vs) != extlib.mult(dR, c):
+            out.append(('length', k, 'key %r: %d values in %s, the result shape needs %d' % (k, len(vs), c, extlib.mult(dR, c))))
+    by_conv = {conv: _value_failures(case, R, conv) for conv in ('row', 'col')}
+    best = min(('row', 'col'), key=lambda cv: len(by_conv[cv]))
+    for k, m in by_conv[best]:
+        out.append(('value', k, m))
+    if R0['sdim'] != exp_sd:
+        out.append(('header', None, 'result slice dim %r, expected %r (argument, else the first input\'s)' % (R0['sdim'], exp_sd)))
+    if [[float(x) for x in row] for row in R0['aff']] != [[float(x) for x in row] for row in exp_aff]:
+        out.append(('header', None, 'result affine is not the affine argument / the first input\'s affine'))
+    if obs.get('input_untouched') is False:
+        out.append(('untouched', None, 'from_sequence modified an input'))
+    if obs.get('first_equal') is False:
+        out.append(('twice', None, 'merging the same inputs twice gave two different results'))
+    # (check_valid of the result is C07's statement; what C03's lookups need is the length / class clause above)
+    return out
+
+
+# ------------------------------------------------------------------------------------------ known findings
+
+_PRES = {None: ['GConst', 'VSamples', 'TSamples', 'TSlices', 'VSlices', 'GSlices'],
+         'GConst': ['VSamples', 'TSamples', 'TSlices', 'VSlices', 'GSlices'],
+         'VSamples': ['TSamples', 'GSlices'], 'TSamples': ['GSlices'],
+         'TSlices': ['VSlices', 'GSlices'], 'VSlices': ['GSlices'], 'GSlices': []}
+
+
+def n11_predict(case):
+    """Class-level replay of a merge ALONG THE SLICE AXIS whose slice_dim argument differs from some input's own
+    slice_dim -> (type_error, count_keys): type_error = some key reaches the general (interleave) path of the slice
+    insertion at a step whose input has no slice_dim (its slice count is None there); count_keys = keys that are
+    widened to a per-slice class at a step whose input counts its slices along another axis of extent != 1 (the input
+    then contributes that many values per volume instead of one).  That is the mechanism of finding N11."""
+    exts, dim, sd = case['exts'], case['dim'], case.get('sdim_arg')
+    if sd is None or dim != sd or dim >= 3 or all(E['sdim'] == sd for E in exts):
+        return False, set()
+    sh = exts[0]['shape']
+    if any(E['shape'] != sh for E in exts) or len(sh) <= dim or sh[dim] != 1:
+        return False, set()
+    aff, _ = expected_header(case)
+    rn = _normal(aff, sd, 'row')
+    nd = len(sh)
+    bases = (['time'] if nd == 4 or (nd == 5 and sh[3] != 1) else []) + (['vector'] if nd == 5 else []) + ['global']
+    first_slices = {'time': 'TSlices', 'vector': 'VSlices', 'global': 'GSlices'}[bases[0]]
+
+    def visible(E, k):
+        ent = extlib.entry_map(E).get(k)
+        if ent is None or not extlib.class_ok(E['shape'], ent[0]):
+            return None
+        en = _normal(E['aff'], E['sdim'], 'row')
+        use = rn is not None and en is not None and extlib.allclose(rn, en)
+        if extlib.PYCLS[ent[0]][1] == 'slices' and not use:
+            return None
+        return ent
+
+    type_error, count_keys = False, set()
+    for k in extlib.keys_of(*exts):
+        ent = visible(exts[0], k)
+        lc, lval = (ent[0], ent[1][0] if ent[0] == 'GConst' else None) if ent else (None, None)
+        for E in exts[1:]:
+            o = visible(E, k)
+            if o is None and lc is None:
+                continue
+            oc, oval = (o[0], o[1][0] if o[0] == 'GConst' else None) if o else ('GConst', None)
+            if lc != oc:                                   # reclassification
+                if oc in _PRES[lc]:
+                    lc, lval = oc, (None if lc is None else lval)
+                elif lc not in _PRES[oc]:
+                    lc = 'GSlices'
+            general = False
+            if lc == 'GConst':
+                if lval == oval:
+                    continue
+                lc = first_slices
+            elif lc != 'TSlices':
+                general = True
+                lc = 'GSlices'
+            if general and E['sdim'] is None:
+                type_error = True
+            if E['sdim'] is not None and E['sdim'] != sd and E['shape'][E['sdim']] != 1:
+                count_keys.add(k)
+    return type_error, count_keys
+
+
+def sig_n11(case, obs, msg=None):
+    """Signature of the open finding N11, re-derived: the observed failure must be the one the mechanism predicts
+    (TypeError where the replay reaches the interleave with an input whose slice count is None; or wrong value counts /
+    values on exactly the keys that the replay widens with the input's own slice count).  Anything else in such a case
+    (another exception class, a crash, a header / shape / untouched failure, another key) is NOT N11."""
+    type_error, count_keys = n11_predict(case)
+    if not type_error and not count_keys:
+        return None
+    cl = merge_clauses(case, obs)
+    tag = _tag_of(msg)
+    if tag == 'raised' and obs.get('exc') == 'TypeError' and type_error:
         return 'merge/slice-dim-arg-mismatch'
+    if tag in ('length', 'value') and 'err' not in obs:
+        bad = [k for c, k, _ in cl if c in ('length', 'value')]
+        if bad and set(bad) <= count_keys:
+            return 'merge/slice-dim-arg-mismatch'
     return None
 
 
+_TAGS = ('crash', 'refusal', 'raised', 'shape', 'length', 'value', 'header', 'untouched', 'twice')
+
+
+def _fmt(clause, m):
+    return '[%s] %s' % (clause, m)
+
+
+def _tag_of(msg):
+    """The clause tag this plugin's own oracle put in front of the message."""
+    if msg and msg.startswith('[') and ']' in msg:
+        t = msg[1:msg.index(']')]
+        return t if t in _TAGS else None
+    return None
+
+
+_KNOWN = None
+
+
+def _known_sigs():
+    global _KNOWN
+    if _KNOWN is None:
+        import os, re
+        _KNOWN = set()
+        path = os.path.join(os.path.dirname(os.path.dirname(os.path.abspath(__file__))), 'known-findings.txt')
+        if os.path.exists(path):
+            for line in open(path):
+                m = re.match(r'open:\s+property=(\S+)\s+sig=(\S+)\s', line.strip())
+                if m and m.group(1) == ID:
+                    _KNOWN.add(m.group(2))
+    return _KNOWN
+
+
+def _signature(prefix, case, obs, msg):
+    tag = _tag_of(msg)
+    s = sig_n11(case, obs, msg)
+    if s:
+        return s
+    if tag == 'raised':
+        s = extlib.finding_sig_merge(case, obs)
+        if s:
+            return s
+    what = obs.get('exc') if tag == 'raised' else (tag or 'unknown')
+    return '%s/%s/dim%d/%s' % (prefix, extlib.shape_family(case['exts'][0]['shape']), case['dim'], what)
+
+
+def _oracle(prefix, case, obs):
+    """Collect every clause, then prefer a message that is NOT a known finding (rule: collect, then prefer the unknown)."""
+    msgs = [_fmt(c, m) for c, _, m in merge_clauses(case, obs)]
+    if not msgs:
+        return None
+    known = _known_sigs()
+    for m in msgs:
+        if _signature(prefix, case, obs, m) not in known:
+            return m
+    return msgs[0]
+
+
+def _extra_cases(rng, tier, prefix):
+    """Regions the shared generator leaves out and the library supports: an affine ARGUMENT different from the inputs'
+    affines (the result must carry it, and per-slice data is kept only for inputs whose normal matches IT), inputs with
+    a trailing singleton axis merged along that axis ((X,Y,Z,1) along time, (X,Y,Z,T,1) along vector), 6-7 inputs."""
+    out = []
+    n = 40 if tier == 'quick' else 300
+    for _ in range(n):
+        c = extlib.gen_merge_case(rng, tier)
+        E0 = c['exts'][0]
+        if E0['sdim'] is not None and rng.random() < 0.5:
+            c['aff'] = extlib.other_normal_affine(rng, E0['aff'], E0['sdim'])
+        else:
+            c['aff'] = extlib.gen_affine(rng)
+        c['kind'] = prefix + '/aff-arg'
+        out.append(c)
+    for _ in range(n // 2):
+        dim, nd = rng.choice([(3, 4), (4, 5)])
+        c = extlib.gen_merge_case(rng, tier, dim=dim, ndim_in=nd)
+        c['kind'] = prefix + '/trailing1-along-last'
+        out.append(c)
+    for _ in range(n // 4):
+        c = extlib.gen_merge_case(rng, tier)
+        while len(c['exts']) < 6:
+            c['exts'].append(copy.deepcopy(rng.choice(c['exts'])))
+        c['kind'] = prefix + '/many-inputs'      # the oracle judges against the inputs themselves, so copies are fine
+        out.append(c)
+    return out
+
+
 class MergePart(extlib.MergePart):
-    """extlib.MergePart + the signature of N11."""
+    """extlib.MergePart (generator, runner, Coq rendering) with C03's own oracle: all clauses judged against generator
+    truth, collected, and signatures that re-derive the mechanism of the open findings."""
     NAME = 'merge'
 
     @staticmethod
+    def gen_cases(rng, tier):
+        return extlib.MergePart.gen_cases(rng, tier) + _extra_cases(rng, tier, 'merge')
+
+    @staticmethod
+    def oracle(case, obs):
+        return _oracle('merge', case, obs)
+
+    @staticmethod
     def signature(case, obs, msg):
-        return sig_n11(case, obs) or extlib.MergePart.signature(case, obs, msg)
+        return _signature('merge', case, obs, msg)
 
 
 def run_twice(case):
@@ -91,8 +372,9 @@ class TwiceMergePart:
     SHARD = 60
     IMPL_TIMEOUT = 20
     RULE = ('merge cases as in the merge part, restricted to the slice / time / vector axes and biased to keys that change '
-            'class during the merge; the same DcmMetaExtension objects are passed to from_sequence twice and the SECOND '
-            'result is compared with the model and the dense reference')
+            'class during the merge, plus cases with an affine argument different from the inputs\'; the same '
+            'DcmMetaExtension objects are passed to from_sequence twice and the SECOND result is judged (values, value '
+            'counts, result affine / slice dim against the case) and compared with the model')
 
     @staticmethod
     def gen_cases(rng, tier):
@@ -100,6 +382,8 @@ class TwiceMergePart:
         out = []
         while len(out) < n:
             c = extlib.gen_merge_case(rng, tier, dim=rng.choice([0, 1, 2, 2, 3, 3, 4, 4]))
+            if rng.random() < 0.15:
+                c['aff'] = extlib.gen_affine(rng)
             c['kind'] = 'twice/' + c['kind']
             out.append(c)
         return out
@@ -109,19 +393,11 @@ class TwiceMergePart:
 
     @staticmethod
     def oracle(case, obs):
-        if 'crash' in obs:
-            return 'harness: %s' % obs.get('msg')
-        m = extlib.oracle_merge(case, obs)
-        if m is None and obs.get('input_untouched') is False:
-            return 'from_sequence modified an input'
-        if m is None and obs.get('first_equal') is False:
-            return 'merging the same inputs twice gave two different results'
-        return ('second merge of the same objects: ' + m) if m else None
+        return _oracle('twice', case, obs)
 
     @staticmethod
     def signature(case, obs, msg):
-        return sig_n11(case, obs) or extlib.finding_sig_merge(case, obs) or \
-            'twice/%s/dim%d/%s' % (extlib.shape_family(case['exts'][0]['shape']), case['dim'], extlib.sig_of_exc(obs))
+        return _signature('twice', case, obs, msg)
 
     nontrivial = staticmethod(extlib.MergePart.nontrivial)
     shrink = staticmethod(extlib.MergePart.shrink)
